@@ -249,7 +249,16 @@ func genIPCertPlan(r *mrand.Rand, tier string) *vfPlan {
 	for i := 0; i < n; i++ {
 		switch x := r.IntN(100); {
 		case x < 50:
-			add(vfStep{Op: "rolerefresh", C: "cert:last:ipcert", Target: pick(r, peers), B: pick(r, []string{"user_p256_2", "user_rsa2048_3"}), N: int64(pick(r, []int{0, 0, 0, 0, 1}))})
+			st := vfStep{Op: "rolerefresh", C: "cert:last:ipcert", Target: pick(r, peers), B: pick(r, []string{"user_p256_2", "user_rsa2048_3"}), N: int64(pick(r, []int{0, 0, 0, 0, 1}))}
+			if chance(r, 0.2) {
+				// a local proxy address as TCP peer, forwarding headers claiming an address inside the netblock
+				st.Target = pick(r, []string{"127.0.0.1", "127.0.0.1", "::1", st.Target})
+				st.L = append(st.L, "xff:"+peers[0])
+			}
+			if chance(r, 0.15) {
+				st.L = append(st.L, "identity:"+pick(r, []string{"auto1", "auto2", "root"}))
+			}
+			add(st)
 		case x < 65:
 			add(vfStep{Op: "certgen", Sess: "node", User: ident, A: pick(r, []string{"", "x509"}), B: "user_p256_1", C: "cert:last:ipcert", Target: pick(r, peers)})
 		case x < 80:
